@@ -96,3 +96,11 @@ Proof.
   - exists (2/7), (3/7), (6/7), 0; split; [reflexivity|unfold n4; lra].
   - exists 1000000000, (-3), (-3/5), (4/5); split; [reflexivity|lra].
 Qed.
+
+(* Bundles: X.isApprox(X, e) for EVERY valid element of Bundle<SO3, R3, SE3>, at any coordinates (the general reflexivity theorem at
+   the Bundle's GroupCore; log(identity) = 0 for the Bundle from the elements': BundleApprox) *)
+From Manif Require Import Bundle BundleGroup BundleLogExp BundleRoundTrip BundleApprox.
+Theorem C18_Bundle_SO3_R3_SE3_isApprox_refl eps (H : 0 < eps) X e :
+  gc_valid (C3 eps H) X -> 0 < e -> g_isApprox (Bundle (L3 eps)) X X e = true.
+Proof. exact (bundle3_isApprox_refl eps H X e). Qed.
+Print Assumptions C18_Bundle_SO3_R3_SE3_isApprox_refl.
